@@ -138,6 +138,10 @@ def run(ctx):
     ctx.exhaustive[R] = True
 
     # ------------------------------------------------------------------
+    from .c19 import rule_dictionary_construction
+    rule_dictionary_construction(ctx, "C15.clone_cannot_fail")
+
+    # ------------------------------------------------------------------
     R = "C15.hashable_lines"
     ctx.rule(R, "every __hash__ defined in the library returns a value on "
              "every path (lines are put into sets by the multiplication and "
